@@ -48,6 +48,10 @@
 (* Mutant switch NoAckWait (TLC must reject it): the backend does not wait for the server's acknowledgement   *)
 (* after reporting its runtime info, so a half-started backend (spawned, not yet in `children`) does not end   *)
 (* when the server's end of the pipe closes: it runs its target and outlives the server.                        *)
+(* Child state "swallow-t": a swallowing worker that has already survived a graceful terminate(timeout,       *)
+(* force=False) of its parent (which correctly returned False) before the stop.  Mutant switch CacheDead        *)
+(* (TLC must reject it): the server-side object marks itself dead after ANY terminate, so both shutdown paths    *)
+(* (is_alive() in the finally loop and in the SIGTERM handler) skip the live child.                              *)
 (* Fix switches: CtxTerm (proposed_fixes/C12_context_helper_*.diff): a helper that is SIGTERMed   *)
 (* kills the backends it started (as the server's own handler does) before it dies; DupTerm        *)
 (* (proposed_fixes/C12_rejected_duplicate_*.diff): the context built for a refused duplicate        *)
@@ -55,12 +59,13 @@
 (* ProcessWorker.terminate escalates to SIGKILL when the child survives SIGTERM + join).             *)
 EXTENDS Naturals, Sequences, FiniteSets, TLC, ServerProps
 
-CONSTANTS MaxKids, KidStates, Racers, CtxTerm, DupTerm, ParentKill, ClearFirst, NarrowExcept, NoAckWait
+CONSTANTS MaxKids, KidStates, Racers, CtxTerm, DupTerm, ParentKill, ClearFirst, NarrowExcept, NoAckWait, CacheDead
 
 CtxKinds == <<"inctx", "inctx-coop", "inctx-swallow">>      \* one context (helper) per kind, in `contexts` order
 IsCtx(s) == s \in {"inctx", "inctx-coop", "inctx-swallow"}
-Swallows(s) == s \in {"swallow", "inctx-swallow", "swallow-gone"}
+Swallows(s) == s \in {"swallow", "inctx-swallow", "swallow-gone", "swallow-t"}
 OwnerGone(s) == s \in {"swallow-gone", "coop-gone"}
+ThinksDead(s) == CacheDead /\ s = "swallow-t"          \* the server-side object's is_alive() says False although the backend runs
 
 VARIABLES how, kid, racer,      \* the configuration
           ost,                  \* kid -> "run" | "dead"                      (OS truth about its backend)
@@ -120,7 +125,7 @@ ParentKillStep == /\ ParentKill /\ req /\ sigused /\ ~sig /\ spc = "exiting" /\ 
 \* is there anything in self.children for the handler to walk?  (as written the loop clears the list when it is through)
 Listed == spc # "exiting" /\ ~(ClearFirst /\ spc = "fin")
 Handler == /\ sig /\ spc # "dead" /\ ~(spc = "blocked" /\ req)
-           /\ ost' = [k \in 1..N |-> IF k \in Direct /\ Listed THEN "dead" ELSE ost[k]]
+           /\ ost' = [k \in 1..N |-> IF k \in Direct /\ Listed /\ ~ThinksDead(kid[k]) THEN "dead" ELSE ost[k]]
            /\ rk' = (IF rk = "appended" /\ Listed THEN "dead" ELSE rk)
            /\ spc' = "dead" /\ waiting' = FALSE
            /\ UNCHANGED <<how, kid, racer, rep, fi, hst, hj, req, sig, sigused, elapsed>>
@@ -129,7 +134,7 @@ Handler == /\ sig /\ spc # "dead" /\ ~(spc = "blocked" /\ req)
 FinChild ==
    /\ spc = "fin" /\ fi <= N + 3 /\ FinSeq[fi].t = "kid"
    /\ LET k == fi IN
-      IF k \notin Direct \/ ost[k] = "dead"
+      IF k \notin Direct \/ ost[k] = "dead" \/ ThinksDead(kid[k])
       THEN UNCHANGED <<ost, rep, elapsed, waiting>> /\ fi' = fi + 1      \* not in `children` / is_alive() is False
       ELSE IF NarrowExcept /\ OwnerGone(kid[k])
       THEN /\ ost' = [ost EXCEPT ![k] = IF Swallows(kid[k]) THEN "run" ELSE "dead"]   \* request sent, then OSError: no join, no kill, no backstop
